@@ -83,6 +83,8 @@ pub struct Forced<A: DecoderArithmetic> {
     pub var_calls: std::sync::Arc<std::sync::Mutex<Vec<(f64, f64)>>>,
     /// layered: the whole variable vector after every layer
     pub layer_vars: std::sync::Arc<std::sync::Mutex<Vec<f64>>>,
+    /// number of send_var_messages (flooding) / update_check_messages_and_vars (layered) calls seen: message-passing work done
+    pub work: std::sync::Arc<std::sync::Mutex<(usize, usize)>>,
     _pd: RefCell<()>,
 }
 unsafe impl<A: DecoderArithmetic> Send for Forced<A> {}
@@ -95,8 +97,10 @@ where A::Llr: Num, A::VarLlr: Num {
     type VarLlr = A::VarLlr;
     fn input_llr_quantize(&self, llr: f64) -> A::Llr { self.inner.input_llr_quantize(llr) }
     fn llr_hard_decision(&self, _llr: A::Llr) -> bool {
-        // first call after any message-passing work answers "1", all later ones "0": the first parity check
-        // evaluated then has odd parity, so the decoder keeps iterating up to the limit
+        // first call after any message-passing work answers "1", all later ones "0": whichever variable is asked first becomes the
+        // only one of the word, and every check it belongs to has odd parity (the graphs used have no isolated variable), so the
+        // decoder keeps iterating up to the limit. How often and in which order a decoder asks is NOT specified: the number of
+        // rounds really run is counted (`work`) and reported, and the posterior clause is only judged when it reached the diameter.
         if self.first.get() { self.first.set(false); true } else { false }
     }
     fn llr_to_var_message(&self, llr: A::Llr) -> A::VarMessage { self.inner.llr_to_var_message(llr) }
@@ -112,17 +116,19 @@ where A::Llr: Num, A::VarLlr: Num {
         self.first.set(true);
         let r = self.inner.send_var_messages(input_llr, check_messages, send);
         self.var_calls.lock().unwrap().push((input_llr.to_f64(), r.to_f64()));
+        self.work.lock().unwrap().0 += 1;
         r
     }
     fn update_check_messages_and_vars(&mut self, check_messages: &mut [SentMessage<A::CheckMessage>], vars: &mut [A::VarLlr]) {
         self.first.set(true);
         self.inner.update_check_messages_and_vars(check_messages, vars);
         *self.layer_vars.lock().unwrap() = vars.iter().map(|v| v.to_f64()).collect();
+        self.work.lock().unwrap().1 += 1;
     }
 }
 
 fn forced<A: DecoderArithmetic>(inner: A) -> Forced<A> {
-    Forced { inner, first: Cell::new(true), var_calls: Default::default(), layer_vars: Default::default(), _pd: RefCell::new(()) }
+    Forced { inner, first: Cell::new(true), var_calls: Default::default(), layer_vars: Default::default(), work: Default::default(), _pd: RefCell::new(()) }
 }
 
 /// random forest with check degree >= 2: grow from a variable, attaching checks with fresh variables
@@ -170,29 +176,31 @@ where A::Llr: Num, A::VarLlr: Num {
         let ar = forced(mk());
         let vc = ar.var_calls.clone();
         let lv = ar.layer_vars.clone();
+        let wk = ar.work.clone();
         let h = matrix(rows, n);
         if layered {
             let mut d = horizontal_layered::Decoder::new(h, ar);
             let _ = d.decode(&seen, its);
-            lv.lock().unwrap().clone()
+            (lv.lock().unwrap().clone(), wk.lock().unwrap().1 / rows.len().max(1))
         } else {
             let mut d = flooding::Decoder::new(h, ar);
             let _ = d.decode(&seen, its);
             // last n calls = last iteration; identify the variable by its (distinct) channel LLR
             let calls = vc.lock().unwrap().clone();
             let last: Vec<(f64, f64)> = calls[calls.len().saturating_sub(n)..].to_vec();
-            seen.iter().map(|&x| last.iter().find(|c| c.0 == x).map(|c| c.1).unwrap_or(f64::NAN)).collect()
+            (seen.iter().map(|&x| last.iter().find(|c| c.0 == x).map(|c| c.1).unwrap_or(f64::NAN)).collect(), wk.lock().unwrap().0 / n.max(1))
         }
     });
     let sched = if layered { "layered" } else { "flooding" };
     match res {
         Err(m) => out.ev("Post", "panic", json!({"arith": name, "sched": sched, "rows": rows, "n": n, "msg": m})),
-        Ok(got) => {
+        Ok((got, rounds)) => {
+            let got: Vec<f64> = got;
             let errs: Vec<i64> = (0..n).map(|v| cb(got.get(v).copied().unwrap_or(f64::NAN) - reference[v])).collect();
             let refc: Vec<i64> = reference.iter().map(|r| r.abs().ceil().min(1e6) as i64).collect();
             let maxdeg = rows.iter().map(|r| r.len()).max().unwrap_or(2);
             out.ev("Post", "ok", json!({"arith": name, "sched": sched, "f32": f32t, "rows": rows, "n": n, "its": its, "len": got.len(),
-                "err_cb": errs, "refc": refc, "maxdeg": maxdeg,
+                "err_cb": errs, "refc": refc, "maxdeg": maxdeg, "rounds": rounds, "diam": graph_diameter(rows, n),
                 "llr_m": seen.iter().map(|x| (x * 1000.0).round() as i64).collect::<Vec<_>>()}));
         }
     }
@@ -300,6 +308,10 @@ pub fn generate(a: &Args) {
     let n2 = if th { 5000 } else { 120 };
     for i in 0..n2 {
         let (rows, n) = random_forest(&mut rng, if i % 3 == 0 { 8 } else { 4 }, 12);
+        // no isolated variables (their posterior is their channel LLR; and see Forced::llr_hard_decision): renumber the others
+        let used: Vec<usize> = (0..n).filter(|v| rows.iter().any(|r| r.contains(v))).collect();
+        let rows: Vec<Vec<usize>> = rows.iter().map(|r| r.iter().map(|v| used.iter().position(|u| u == v).unwrap()).collect()).collect();
+        let n = used.len();
         // distinct channel LLRs in +-6
         let mut llrs: Vec<f64> = vec![];
         while llrs.len() < n {
